@@ -15,7 +15,7 @@ Definition rs (W : world) (a : N) (o : obj) (k : Z) : Z :=
 Definition oeq (W : world) (a : N) (x y : option obj) : Prop :=
   match x, y with
   | None, None => True
-  | Some o1, Some o2 => obal o1 = obal o2 /\ tstor o1 = tstor o2 /\ forall k, rs W a o1 k = rs W a o2 k
+  | Some o1, Some o2 => obal o1 = obal o2 /\ tstor o1 = tstor o2 /\ osui o1 = osui o2 /\ forall k, rs W a o1 k = rs W a o2 k
   | _, _ => False
   end.
 
@@ -27,11 +27,11 @@ Definition obs_eq (W : world) (D1 D2 : sdb) : Prop :=
 Lemma oeq_refl W a x : oeq W a x x.
 Proof. destruct x; cbn; auto. Qed.
 Lemma oeq_sym W a x y : oeq W a x y -> oeq W a y x.
-Proof. destruct x, y; cbn; try tauto. intros (Ha&Hb&Hc). repeat split; auto. Qed.
+Proof. destruct x, y; cbn; try tauto. intros (Ha&Hb&Hs&Hc). repeat split; auto. Qed.
 Lemma oeq_trans W a x y z : oeq W a x y -> oeq W a y z -> oeq W a x z.
 Proof.
-  destruct x, y, z; cbn; try tauto. intros (Ha&Hb&Hc) (Ha'&Hb'&Hc').
-  split; [congruence|]. split; [congruence|]. intros k. rewrite Hc. apply Hc'.
+  destruct x, y, z; cbn; try tauto. intros (Ha&Hb&Hs&Hc) (Ha'&Hb'&Hs'&Hc').
+  split; [congruence|]. split; [congruence|]. split; [congruence|]. intros k. rewrite Hc. apply Hc'.
 Qed.
 Lemma obs_eq_refl W D : obs_eq W D D.
 Proof. repeat split; auto. intros a. apply oeq_refl. Qed.
@@ -47,11 +47,13 @@ Qed.
 Definition undo_core (D : sdb) (e : jentry) : sdb :=
   match e with
   | JBal a prev => match objs D !! a with
-                   | Some o => set_obj D a (mkobj prev (dstor o) (ostor o) (tstor o)) | None => D end
+                   | Some o => set_obj D a (mkobj prev (dstor o) (ostor o) (tstor o) (osui o)) | None => D end
   | JStor a k prev => match objs D !! a with
-                      | Some o => set_obj D a (mkobj (obal o) (<[k := prev]> (dstor o)) (ostor o) (tstor o)) | None => D end
+                      | Some o => set_obj D a (mkobj (obal o) (<[k := prev]> (dstor o)) (ostor o) (tstor o) (osui o)) | None => D end
   | JCreate a => mksdb (delete a (objs D)) (journal D) (dirties D) (logs D)
   | JLog => mksdb (objs D) (journal D) (dirties D) (Nat.pred (logs D))
+  | JSuicide a p pb => match objs D !! a with
+                       | Some o => set_obj D a (mkobj pb (dstor o) (ostor o) (tstor o) p) | None => D end
   end.
 Definition undo_dirt (D : sdb) (e : jentry) : sdb :=
   match dirtied e with
@@ -64,15 +66,15 @@ Proof. reflexivity. Qed.
 
 Lemma undo_core_obs_eq W D1 D2 e : obs_eq W D1 D2 -> obs_eq W (undo_core D1 e) (undo_core D2 e).
 Proof.
-  intros (Hj & Hd & Hl & Ho). destruct e as [a0 prev|a0 k prev|a0|]; cbn [undo_core].
+  intros (Hj & Hd & Hl & Ho). destruct e as [a0 prev|a0 k prev|a0| |a0 p pb]; cbn [undo_core].
   - pose proof (Ho a0) as H0. destruct (objs D1 !! a0) as [o1|] eqn:E1, (objs D2 !! a0) as [o2|] eqn:E2; cbn in H0; try tauto.
     + unfold obs_eq; cbn. split; [done|]. split; [done|]. split; [done|]. intros a. destruct (decide (a0 = a)) as [->|Hne].
-      * rewrite !lookup_insert. cbn. destruct H0 as (Hb&Ht&H3). split; [done|]. split; [done|]. exact H3.
+      * rewrite !lookup_insert. cbn. destruct H0 as (Hb&Ht&Hs&H3). split; [done|]. split; [done|]. split; [done|]. exact H3.
       * rewrite !lookup_insert_ne by done. apply Ho.
     + by repeat split.
   - pose proof (Ho a0) as H0. destruct (objs D1 !! a0) as [o1|] eqn:E1, (objs D2 !! a0) as [o2|] eqn:E2; cbn in H0; try tauto.
     + unfold obs_eq; cbn. split; [done|]. split; [done|]. split; [done|]. intros a. destruct (decide (a0 = a)) as [->|Hne].
-      * rewrite !lookup_insert. cbn. destruct H0 as (Hb&Ht&H3). split; [done|]. split; [done|].
+      * rewrite !lookup_insert. cbn. destruct H0 as (Hb&Ht&Hs&H3). split; [done|]. split; [done|]. split; [done|].
         intros k'. unfold rs; cbn. destruct (decide (k = k')) as [->|Hk].
         -- by rewrite !lookup_insert.
         -- rewrite !lookup_insert_ne by done. apply (H3 k').
@@ -82,6 +84,11 @@ Proof.
     + by rewrite !lookup_delete.
     + rewrite !lookup_delete_ne by done. apply Ho.
   - unfold obs_eq; cbn. split; [done|]. split; [done|]. split; [congruence|]. intros a. apply Ho.
+  - pose proof (Ho a0) as H0. destruct (objs D1 !! a0) as [o1|] eqn:E1, (objs D2 !! a0) as [o2|] eqn:E2; cbn in H0; try tauto.
+    + unfold obs_eq; cbn. split; [done|]. split; [done|]. split; [done|]. intros a. destruct (decide (a0 = a)) as [->|Hne].
+      * rewrite !lookup_insert. cbn. destruct H0 as (Hb&Ht&Hs&H3). split; [done|]. split; [done|]. split; [done|]. exact H3.
+      * rewrite !lookup_insert_ne by done. apply Ho.
+    + by repeat split.
 Qed.
 
 Lemma undo_dirt_obs_eq W D1 D2 e : obs_eq W D1 D2 -> obs_eq W (undo_dirt D1 e) (undo_dirt D2 e).
@@ -118,7 +125,7 @@ Definition jlen (D : sdb) : nat := length (journal D).
 Lemma journal_undo D e : journal (undo D e) = journal D.
 Proof.
   rewrite undo_split. unfold undo_dirt, undo_core.
-  destruct e as [a p|a k p|a|]; cbn; try destruct (objs D !! a); reflexivity.
+  destruct e as [a p|a k p|a| |a p pb]; cbn; try destruct (objs D !! a); reflexivity.
 Qed.
 
 Lemma pop_n_len k : forall D, (k <= jlen D)%nat -> jlen (pop_n D k) = (jlen D - k)%nat.
@@ -161,7 +168,7 @@ Proof.
   { intros a Hin. apply Hc. rewrite Hj. by right. }
   split; [|split].
   - intros a Ha. destruct (Hs a Ha) as [o Ho].
-    unfold undo_dirt, undo_core. destruct e as [a0 p|a0 k p|a0|]; cbn.
+    unfold undo_dirt, undo_core. destruct e as [a0 p|a0 k p|a0| |a0 p pb]; cbn.
     + destruct (objs D !! a0) eqn:E; cbn; [|rewrite Ho; eauto].
       destruct (decide (a0 = a)) as [->|]; [rewrite lookup_insert; eauto|rewrite lookup_insert_ne by done; rewrite Ho; eauto].
     + destruct (objs D !! a0) eqn:E; cbn; [|rewrite Ho; eauto].
@@ -169,9 +176,11 @@ Proof.
     + assert (a0 <> a). { intros ->. eapply Hc; [|exact Ha]. rewrite Hj. by left. }
       rewrite lookup_delete_ne by done. rewrite Ho; eauto.
     + rewrite Ho; eauto.
+    + destruct (objs D !! a0) eqn:E; cbn; [|rewrite Ho; eauto].
+      destruct (decide (a0 = a)) as [->|]; [rewrite lookup_insert; eauto|rewrite lookup_insert_ne by done; rewrite Ho; eauto].
   - intros a c. unfold undo_dirt.
     assert (Hd : dirties (undo_core (mksdb (objs D) r (dirties D) (logs D)) e) = dirties D).
-    { unfold undo_core. destruct e as [a0 p|a0 k p|a0|]; cbn; try destruct (objs D !! a0); reflexivity. }
+    { unfold undo_core. destruct e as [a0 p|a0 k p|a0| |a0 p pb]; cbn; try destruct (objs D !! a0); reflexivity. }
     destruct (dirtied e) as [a0|]; cbn; rewrite ?Hd; [|apply Hp].
     destruct (Nat.eqb_spec (Nat.pred (default O (dirties D !! a0))) 0) as [Hz|Hz].
     + intros H. destruct (decide (a0 = a)) as [->|]; [by rewrite lookup_delete in H|].
@@ -240,7 +249,7 @@ Qed.
 
 Lemma sdb_eta D : mksdb (objs D) (journal D) (dirties D) (logs D) = D.
 Proof. by destruct D. Qed.
-Lemma obj_eta o : mkobj (obal o) (dstor o) (ostor o) (tstor o) = o.
+Lemma obj_eta o : mkobj (obal o) (dstor o) (ostor o) (tstor o) (osui o) = o.
 Proof. by destruct o. Qed.
 
 Lemma load_id W D a : wf W D -> load W D a = D.
@@ -252,7 +261,7 @@ Proof.
 Qed.
 
 Lemma create_ext W D a : wf W D -> objs D !! a = None -> a ∉ wexists W ->
-  ext W D (japp (set_obj D a (mkobj 0 ∅ ∅ ∅)) (JCreate a)).
+  ext W D (japp (set_obj D a (mkobj 0 ∅ ∅ ∅ false)) (JCreate a)).
 Proof.
   intros Hwf Hn Hne. apply (ext_push W D _ [JCreate a]).
   - apply wf_japp; [by apply wf_set_obj|]. intros b Hb. by inversion Hb; subst.
@@ -282,7 +291,7 @@ Proof.
   - reflexivity.
   - cbn [length pop_n japp journal set_obj objs dirties logs dirtied]. rewrite undo_split.
     unfold undo_core, undo_dirt; cbn [dirtied objs journal dirties logs set_obj].
-    rewrite lookup_insert. cbn [objs journal dirties logs set_obj obal dstor ostor tstor].
+    rewrite lookup_insert. cbn [objs journal dirties logs set_obj obal dstor ostor tstor osui].
     destruct Hwf as (_ & Hp & _).
     rewrite (dirt_rt (dirties D) a (Hp a)). rewrite insert_insert, obj_eta. rewrite (insert_id _ _ _ E).
     rewrite sdb_eta. apply obs_eq_refl.
@@ -292,6 +301,20 @@ Lemma add_bal_ext W D a amt : wf W D -> ext W D (add_bal W D a amt).
 Proof.
   intros Hwf. unfold add_bal. destruct (get_or_new_ext W D a Hwf) as [He _].
   destruct (amt =? 0); [done|]. eapply ext_trans; [exact He|]. apply set_bal_ext. apply He.
+Qed.
+
+Lemma suicide_ext W D a : wf W D -> ext W D (suicide D a).
+Proof.
+  intros Hwf. unfold suicide. destruct (objs D !! a) as [o|] eqn:E; [|by apply ext_refl].
+  apply (ext_push W D _ [JSuicide a (osui o) (obal o)]).
+  - apply wf_set_obj. apply wf_japp; [done|]. intros b Hb. inversion Hb.
+  - reflexivity.
+  - cbn [length pop_n japp journal set_obj objs dirties logs dirtied]. rewrite undo_split.
+    unfold undo_core, undo_dirt; cbn [dirtied objs journal dirties logs set_obj].
+    rewrite lookup_insert. cbn [objs journal dirties logs set_obj obal dstor ostor tstor osui].
+    destruct Hwf as (_ & Hp & _).
+    rewrite (dirt_rt (dirties D) a (Hp a)). rewrite insert_insert, obj_eta. rewrite (insert_id _ _ _ E).
+    rewrite sdb_eta. apply obs_eq_refl.
 Qed.
 
 Lemma add_log_ext W D : wf W D -> ext W D (add_log D).
@@ -314,18 +337,18 @@ Proof.
              | None => match ostor o !! k with
                        | Some c => (c, o)
                        | None => (zg (store W) (a, k),
-                                  mkobj (obal o) (dstor o) (<[k := zg (store W) (a, k)]> (ostor o)) (tstor o))
+                                  mkobj (obal o) (dstor o) (<[k := zg (store W) (a, k)]> (ostor o)) (tstor o) (osui o))
                        end
              end).
   assert (Hpr : fst pr = rs W a o k /\ obal (snd pr) = obal o /\ tstor (snd pr) = tstor o /\ dstor (snd pr) = dstor o /\
-                forall k', rs W a (snd pr) k' = rs W a o k').
+                osui (snd pr) = osui o /\ forall k', rs W a (snd pr) k' = rs W a o k').
   { unfold pr, rs. destruct (dstor o !! k) eqn:Ed; cbn.
     - repeat split; auto.
     - destruct (ostor o !! k) eqn:Eo; cbn.
       + repeat split; auto.
       + repeat split; auto. intros k'. destruct (dstor o !! k'); [done|].
         destruct (decide (k = k')) as [->|]; [by rewrite lookup_insert, Eo|by rewrite lookup_insert_ne]. }
-  destruct pr as [prev o1]. cbn [fst snd] in Hpr. destruct Hpr as (Hprev & Hb1 & Ht1 & Hd1 & Hrs1).
+  destruct pr as [prev o1]. cbn [fst snd] in Hpr. destruct Hpr as (Hprev & Hb1 & Ht1 & Hd1 & Hs1 & Hrs1).
   eapply ext_trans; [exact He|].
   destruct (prev =? v).
   - apply (ext_push W D1 _ []); [by apply wf_set_obj|reflexivity|].
@@ -337,11 +360,11 @@ Proof.
     + reflexivity.
     + cbn [length pop_n japp journal set_obj objs dirties logs dirtied]. rewrite undo_split.
       unfold undo_core, undo_dirt; cbn [dirtied objs journal dirties logs set_obj].
-      rewrite lookup_insert. cbn [objs journal dirties logs set_obj obal dstor ostor tstor].
+      rewrite lookup_insert. cbn [objs journal dirties logs set_obj obal dstor ostor tstor osui].
       destruct Hwf1 as (_ & Hp & _). rewrite (dirt_rt (dirties D1) a (Hp a)).
       unfold obs_eq; cbn. split; [done|]. split; [done|]. split; [done|].
       intros b. destruct (decide (a = b)) as [->|]; [|rewrite !lookup_insert_ne by done; apply oeq_refl].
-      rewrite lookup_insert, Ho. cbn. split; [done|]. split; [done|].
+      rewrite lookup_insert, Ho. cbn. split; [done|]. split; [done|]. split; [done|].
       intros k'. rewrite <- Hrs1. unfold rs at 1; cbn. rewrite insert_insert.
       destruct (decide (k = k')) as [->|Hk].
       * rewrite lookup_insert. rewrite Hprev. symmetry. apply Hrs1.
@@ -349,13 +372,14 @@ Proof.
 Qed.
 
 (** * Theorem: reverting to a snapshot undoes any sequence of cache mutations *)
-Inductive cop := OAddBal (a : N) (amt : Z) | OSetState (a : N) (k v : Z) | OLog | OLoad (a : N).
+Inductive cop := OAddBal (a : N) (amt : Z) | OSetState (a : N) (k v : Z) | OLog | OLoad (a : N) | OSuicide (a : N).
 Definition cop_apply (W : world) (D : sdb) (op : cop) : sdb :=
   match op with
   | OAddBal a amt => add_bal W D a amt
   | OSetState a k v => set_state W D a k v
   | OLog => add_log D
   | OLoad a => load W D a
+  | OSuicide a => suicide D a
   end.
 
 Lemma cop_ext W D op : wf W D -> ext W D (cop_apply W D op).
@@ -365,6 +389,7 @@ Proof.
   - by apply set_state_ext.
   - by apply add_log_ext.
   - rewrite load_id by done. by apply ext_refl.
+  - by apply suicide_ext.
 Qed.
 
 Lemma cops_ext W ops : forall D, wf W D -> ext W D (fold_left (cop_apply W) ops D).
@@ -395,7 +420,7 @@ Proof.
   - intros a. specialize (Ho a). unfold rbal. destruct (objs D1 !! a), (objs D2 !! a); cbn in *; try tauto.
     by destruct Ho as (-> & _).
   - intros a k. specialize (Ho a). unfold rstate. destruct (objs D1 !! a), (objs D2 !! a); cbn in *; try tauto.
-    destruct Ho as (_ & _ & H). by rewrite H.
+    destruct Ho as (_ & _ & _ & H). by rewrite H.
 Qed.
 
 (** * pure EVM frames (no precompile call anywhere below) *)
@@ -412,6 +437,7 @@ Section instr_induction.
   Hypothesis Hlg : P ILog.
   Hypothesis Hrv : P IRevert.
   Hypothesis Hbl : forall a, P (IBalance a).
+  Hypothesis Hsd : forall b, P (ISelfdestruct b).
   Hypothesis Hcl : forall t v c r body, Forall P body -> P (ICall t v c r body).
   Hypothesis Hpr : forall p v c r, P (IPre p v c r).
   Fixpoint instr_ind' (i : instr) : P i :=
@@ -420,6 +446,7 @@ Section instr_induction.
     | ILog => Hlg
     | IRevert => Hrv
     | IBalance a => Hbl a
+    | ISelfdestruct b => Hsd b
     | ICall t v c r body =>
         Hcl t v c r body ((fix go (l : list instr) : Forall P l :=
                              match l with
@@ -456,7 +483,7 @@ Proof.
   rewrite !(load_id _ _ _ Hwf).
   set (D2 := match objs D !! target with
              | Some _ => D
-             | None => japp (set_obj D target (mkobj 0 ∅ ∅ ∅)) (JCreate target)
+             | None => japp (set_obj D target (mkobj 0 ∅ ∅ ∅ false)) (JCreate target)
              end).
   assert (He2 : ext W D D2).
   { unfold D2. destruct (objs D !! target) eqn:E; [by apply ext_refl|].
@@ -491,12 +518,14 @@ Qed.
 Theorem pure_instr_ext : forall i, pure i = true ->
   forall order o self W D, wf W D -> pure_step W D (exec_instr order o self i (W, D)).
 Proof.
-  induction i as [k v| | |a|t v c r body IH|p v c r] using instr_ind'; intros Hp order o self W D Hwf;
+  induction i as [k v| | |a|b|t v c r body IH|p v c r] using instr_ind'; intros Hp order o self W D Hwf;
     cbn [exec_instr].
   - split; [done|]. by apply set_state_ext.
   - split; [done|]. by apply add_log_ext.
   - split; [done|]. by apply ext_refl.
   - split; [done|]. cbn. rewrite load_id by done. by apply ext_refl.
+  - rewrite load_id by done. destruct (objs D !! self) as [os|]; [|split; [done|by apply ext_refl]].
+    split; [done|]. cbn [fst snd]. eapply ext_trans; [by apply add_bal_ext|]. apply suicide_ext. by apply add_bal_ext.
   - cbn [pure] in Hp. apply after_call_pure. apply do_call_pure; [done|].
     intros D1 Hwf1. destruct (N.leb 2 t && N.leb t 4); [|split; [done|by apply ext_refl]].
     clear Hwf D. revert D1 Hwf1.
